@@ -18,6 +18,14 @@ Fixpoint split_on (sep : byte) (s : bytes) (cur : bytes) : list bytes :=
   | b :: r => if Byte.eqb b sep then rev cur :: split_on sep r [] else split_on sep r (b :: cur)
   end.
 
+(* the part before the first sep, and the rest *)
+Fixpoint split_first (sep : byte) (s : bytes) (cur : bytes) : bytes * bytes :=
+  match s with
+  | [] => (rev cur, [])
+  | b :: r => if Byte.eqb b sep then (rev cur, r) else split_first sep r (b :: cur)
+  end.
+Definition nums (s : bytes) : list N := match s with [] => [] | _ => map num (split_on x2c s []) end.
+
 (* actions: one argument each; first byte is the tag *)
 Definition dec_act (a : bytes) : act :=
   match a with
@@ -37,6 +45,11 @@ Definition dec_act (a : bytes) : act :=
     else if Byte.eqb t x62 (* b *) then BGet
     else if Byte.eqb t x64 (* d *) then BDrain
     else if Byte.eqb t x72 (* r *) then BRelease
+    else if Byte.eqb t x4d (* M *) then Mid (nums r)
+    else if Byte.eqb t x53 (* S *) then let '(k, s) := split_first x2c r [] in EmitOnce (num k) s
+    else if Byte.eqb t x77 (* w *) then OwnWrap
+    else if Byte.eqb t x6f (* o *) then OwnWrite r
+    else if Byte.eqb t x66 (* f *) then OwnFlush
     else Err
   end.
 
@@ -62,8 +75,10 @@ Fixpoint trace (fs : fsys) (fuel : nat) (v : lstate) (last : bytes) : list bytes
            end
   end.
 
-(* offsets at which the writer's http.Flusher is called: after every successful Buffer.Flush towards the writer *)
+(* offsets at which the writer's http.Flusher is called: after every successful Buffer.Flush towards the writer
+   (a bufio.Writer the goroutine put in front of it is not an http.Flusher) *)
 Definition flush_step (v : lstate) : bool :=
+  negb (is_some (l_pend v)) &&
   match l_buf v, l_bb v, l_prog v with
   | Some (LBuf _ false false false), Some true, _ => false
   | Some (LBuf _ false false false), _, Flush :: _ => negb (l_failed v)
